@@ -80,7 +80,9 @@ def rules(model: Model, tier: str) -> List[RuleResult]:
     SM = RuleResult(PROP, "SUB-M", "every alias of a unique parameter receives the new tensor; nothing is skipped", min_instances=3)
     _subst.unique_key_identity(model, K)
     _subst.unique_fill(model, SM)
-    return [M, P, W, L, O, K, SM]
+    Tr = RuleResult(PROP, "C10-T", "debug-mode snapshot and restore traverse the same elements (criteria truth tables over the dtype domain)", min_instances=2)
+    traversal_agreement(model, Tr)
+    return [M, P, W, L, O, K, SM, Tr]
 
 
 # ------------------------------------------------------------------------------------------------- M
@@ -410,6 +412,105 @@ def _lifo(model: Model, L: RuleResult):
 
 
 # ------------------------------------------------------------------------------------------------- O
+_DTYPES = ["float16", "bfloat16", "float32", "float64", "complex64", "complex128", "int32", "int64", "bool", "uint8"]
+_DT_ALIAS = {"float": "float32", "double": "float64", "half": "float16", "cfloat": "complex64", "cdouble": "complex128", "long": "int64", "int": "int32"}
+
+
+def _crit_table(model: Model, fi: FuncInfo, lam: ast.Lambda):
+    """truth table of a traversal criterion `lambda elmt: ...` over the finite domain {not a tensor} + tensor dtypes; sub-expressions
+    outside the dtype vocabulary are free atoms (keyed by text) enumerated both ways"""
+    import itertools
+    arg = lam.args.args[0].arg
+    frees: Dict[str, None] = {}
+
+    def dtype_list(e):
+        r = model.resolve_expr(fi.module, e) if isinstance(e, (ast.Name, ast.Attribute)) else None
+        if r and r[0] == "assign":
+            e = r[2]
+        if isinstance(e, (ast.List, ast.Tuple, ast.Set)):
+            out = set()
+            for x in e.elts:
+                t = ast.unparse(x)
+                if not t.startswith("torch."):
+                    return None
+                nm = t[6:]
+                out.add(_DT_ALIAS.get(nm, nm))
+            return out
+        return None
+
+    def ev(e, kind, fv):
+        if isinstance(e, ast.BoolOp):
+            vs = [ev(v, kind, fv) for v in e.values]
+            return all(vs) if isinstance(e.op, ast.And) else any(vs)
+        if isinstance(e, ast.UnaryOp) and isinstance(e.op, ast.Not):
+            return not ev(e.operand, kind, fv)
+        if isinstance(e, ast.Call) and ast.unparse(e.func) == "isinstance" and len(e.args) == 2 and ast.unparse(e.args[0]) == arg \
+                and ast.unparse(e.args[1]) in ("torch.Tensor", "Tensor"):
+            return kind is not None
+        if kind is not None:
+            if isinstance(e, ast.Call) and isinstance(e.func, ast.Attribute) and ast.unparse(e.func.value) == arg and not e.args:
+                if e.func.attr == "is_floating_point":
+                    return kind in ("float16", "bfloat16", "float32", "float64")
+                if e.func.attr == "is_complex":
+                    return kind in ("complex64", "complex128")
+            if isinstance(e, ast.Compare) and len(e.ops) == 1 and ast.unparse(e.left) == arg + ".dtype":
+                if isinstance(e.ops[0], (ast.In, ast.NotIn)):
+                    dl = dtype_list(e.comparators[0])
+                    if dl is not None:
+                        return (kind in dl) == isinstance(e.ops[0], ast.In)
+                if isinstance(e.ops[0], (ast.Eq, ast.NotEq, ast.Is, ast.IsNot)):
+                    t = ast.unparse(e.comparators[0])
+                    if t.startswith("torch."):
+                        return (kind == _DT_ALIAS.get(t[6:], t[6:])) == isinstance(e.ops[0], (ast.Eq, ast.Is))
+        key = ast.unparse(e)
+        frees.setdefault(key, None)
+        return fv.get(key, False)
+    # discover the free atoms, then enumerate
+    for kind in [None] + _DTYPES:
+        ev(lam.body, kind, {})
+    keys = sorted(frees)
+    if len(keys) > 3:
+        raise AnalysisError("traversal criterion of %s has too many uninterpreted atoms: %s" % (fi.fq, keys))
+    table = {}
+    for kind in [None] + _DTYPES:
+        for fvs in itertools.product((False, True), repeat=len(keys)):
+            table[(kind,) + tuple(zip(keys, fvs))] = bool(ev(lam.body, kind, dict(zip(keys, fvs))))
+    return table
+
+
+def traversal_agreement(model: Model, T: RuleResult):
+    """_get_tensors and _set_tensors (debug-mode snapshot / restore of every tensor of the user's object) select the same elements:
+    their criteria have the same truth table over the dtype domain.  If the getter collects a kind of tensor the setter skips (or
+    vice versa) every later slot is shifted by one and the restore writes tensors into the wrong attributes."""
+    tabs = {}
+    for q in ("_get_tensors", "_set_tensors"):
+        f = model.func(EM, q)
+        defs = function_defs(f.node)
+        calls = [c for c in own_nodes(f.node) if isinstance(c, ast.Call) and ast.unparse(c.func) == "_traverse_obj"]
+        if len(calls) != 1:
+            raise AnalysisError("%s no longer calls _traverse_obj exactly once" % q)
+        crit = next((k.value for k in calls[0].keywords if k.arg == "crit"), None)
+        if isinstance(crit, ast.Name) and len(defs.get(crit.id, [])) == 1:
+            crit = defs[crit.id][0]
+        if not (isinstance(crit, ast.Lambda) and len(crit.args.args) == 1):
+            raise AnalysisError("%s: the traversal criterion is not a one-argument lambda" % q)
+        tabs[q] = (f, calls[0], _crit_table(model, f, crit))
+    (fg, cg, tg), (fs, cs, ts) = tabs["_get_tensors"], tabs["_set_tensors"]
+    diff = [k for k in sorted(set(tg) | set(ts), key=repr) if tg.get(k) != ts.get(k)]
+    if not diff:
+        T.ok(fs.fq, "_get_tensors and _set_tensors select the same elements (equal truth tables over %d element kinds)" % len(tg))
+    else:
+        k = diff[0]
+        T.bad(fs, enclosing_stmt(cs), "_get_tensors and _set_tensors disagree on which elements they visit: for %s the getter says %s, the setter %s - the restored tensors "
+              "are shifted into the wrong slots" % ("a non-tensor" if k[0] is None else "a %s tensor" % k[0], tg.get(k), ts.get(k)))
+    dg = next((ast.unparse(k.value) for k in cg.keywords if k.arg == "max_depth"), None)
+    ds = next((ast.unparse(k.value) for k in cs.keywords if k.arg == "max_depth"), None)
+    if dg == ds:
+        T.ok(fs.fq, "both traversals descend to the same depth (%s)" % dg)
+    else:
+        T.bad(fs, enclosing_stmt(cs), "the two traversals descend to different depths (%s vs %s)" % (dg, ds))
+
+
 def setparams_structure(model: Model, O: RuleResult):
     """EditableModule.setparams installs with set_attr and falls back to delete-then-set only when set_attr raises TypeError (a slot
     holding an nn.Parameter): an unconditional delete re-inserts dict keys / module slots at the end, permanently re-ordering the
